@@ -79,6 +79,9 @@ class Recorder:
         def accept(e0, e1, *a, **k):
             dec = orig_accept(e0, e1, *a, **k)
             rec.events.append(("accept", float(e0), float(e1), bool(dec)))
+            if len(rec.events) > 1500000:
+                from vlib.report import Discard
+                raise Discard("step-cap")       # a search that rounding noise keeps alive: inconclusive (termination is not listed)
             return dec
 
         def move(pos, *a, **k):
